@@ -27,6 +27,8 @@ import (
 	sdk "github.com/cosmos/cosmos-sdk/types"
 	authtypes "github.com/cosmos/cosmos-sdk/x/auth/types"
 	banktypes "github.com/cosmos/cosmos-sdk/x/bank/types"
+	govtypes "github.com/cosmos/cosmos-sdk/x/gov/types"
+	govv1 "github.com/cosmos/cosmos-sdk/x/gov/types/v1"
 	slashingtypes "github.com/cosmos/cosmos-sdk/x/slashing/types"
 	stakingtypes "github.com/cosmos/cosmos-sdk/x/staking/types"
 	abci "github.com/tendermint/tendermint/abci/types"
@@ -207,6 +209,14 @@ func BuildGenesis(app *c4eapp.App, enc appparams.EncodingConfig, spec GenesisSpe
 	}
 	gs[minttypes.ModuleName] = cdc.MustMarshalJSON(mg)
 
+	{
+		var gg govv1.GenesisState
+		cdc.MustUnmarshalJSON(gs[govtypes.ModuleName], &gg)
+		vp := 10 * time.Second
+		gg.VotingParams.VotingPeriod = &vp
+		gg.DepositParams.MinDeposit = sdk.NewCoins(sdk.NewCoin(bond, sdk.NewInt(1)))
+		gs[govtypes.ModuleName] = cdc.MustMarshalJSON(&gg)
+	}
 	// merge duplicate balance addresses, compute supply
 	merged := map[string]sdk.Coins{}
 	var order []string
@@ -559,4 +569,51 @@ func (n *Node) Export() (bz []byte, height int64, err error) {
 // transfer on the deliver context).
 func (n *Node) Send(from, to sdk.AccAddress, coins sdk.Coins) error {
 	return n.App.BankKeeper.SendCoins(n.Ctx(), from, to, coins)
+}
+
+// SubmitAndVote sends a real MsgSubmitProposal carrying msg (signed by the
+// genesis delegator, who also holds all voting power) and votes yes. The
+// proposal is executed by x/gov's EndBlocker once the 10 s voting period is over.
+// Returns the proposal id (0 if the submission was rejected) and the result.
+func (n *Node) SubmitAndVote(msg sdk.Msg) (uint64, abci.ResponseDeliverTx, error) {
+	if _, eerr := n.EncodeMsg(msg); eerr != nil {
+		return 0, abci.ResponseDeliverTx{}, eerr // no wire representation: cannot be proposed
+	}
+	sp, err := govv1.NewMsgSubmitProposal([]sdk.Msg{msg}, sdk.NewCoins(sdk.NewCoin("uc4e", sdk.NewInt(1))), n.Delegator.Bech(), "verif")
+	if err != nil {
+		return 0, abci.ResponseDeliverTx{}, err
+	}
+	res, err := n.Deliver(n.Delegator, sp)
+	if err != nil || res.Code != 0 {
+		return 0, res, err
+	}
+	var id uint64
+	for _, ev := range Flatten(res.Events) {
+		if ev.Type == "submit_proposal" {
+			if v, ok := ev.Attrs["proposal_id"]; ok {
+				fmt.Sscan(v, &id)
+			}
+		}
+	}
+	if id == 0 {
+		return 0, res, fmt.Errorf("no proposal id in events")
+	}
+	vote := govv1.NewMsgVote(n.Delegator.Addr, id, govv1.OptionYes, "")
+	vres, err := n.Deliver(n.Delegator, vote)
+	if err != nil {
+		return id, vres, err
+	}
+	if vres.Code != 0 {
+		return id, vres, fmt.Errorf("vote rejected: %s", vres.Log)
+	}
+	return id, res, nil
+}
+
+// ProposalStatus returns the status of a proposal ("" if unknown).
+func (n *Node) ProposalStatus(id uint64) string {
+	p, ok := n.App.GovKeeper.GetProposal(n.Ctx(), id)
+	if !ok {
+		return ""
+	}
+	return p.Status.String()
 }
